@@ -655,6 +655,12 @@ func (e *Env) evalCall(n *gen.Node) (Val, bool) {
 			if v, ok := PlainInt(a0.S); ok {
 				return FloatV(float64(v)), true
 			}
+			// a longer run of decimal digits is the float nearest to that number
+			if digits := strings.TrimPrefix(a0.S, "-"); len(digits) > 18 && len(digits) <= 30 && strings.Trim(digits, "0123456789") == "" {
+				if f, err := strconv.ParseFloat(a0.S, 64); err == nil {
+					return FloatV(f), true
+				}
+			}
 		}
 		return e.undef("float() of non-plain-decimal text")
 	case "is_int":
